@@ -67,8 +67,13 @@ func (cl *Loader) Load(file string) (*Config, error) {
 		}
 	}
 
-	if !utils.IsURL(file) && !filepath.IsAbs(file) {
-		file = path.Join(cl.dir, file)
+	if !utils.IsURL(file) {
+		if !filepath.IsAbs(file) {
+			file = path.Join(cl.dir, file)
+		} else {
+			// same spelling as the (cleaned) paths of imports, so that a file importing it back is recognised
+			file = path.Clean(file)
+		}
 	}
 
 	raw, err := cl.load(file)
